@@ -253,14 +253,59 @@ func monitor(rc *runCtx, res *ScenResult, srvLocked, srvWait int, reread func() 
 	sort.Slice(lost, func(i, j int) bool { return lost[i].si.t < lost[j].si.t })
 	// frames that went astray: pair with a lost request of the same connection whose hold was released by the owner of
 	// the stray frame's RequestId
-	for _, p := range astray {
+	// pass 0: strict pairing (the stray frame's request was sent by the releasing connection after the release);
+	// pass 1: relaxed (the object travelled through more than one free list before the parked reply was built)
+	done := make([]bool, len(astray))
+	for pass := 0; pass < 2; pass++ {
+		for ai, p := range astray {
+			if done[ai] || p.req == nil {
+				continue
+			}
+			bc := binOf(p.conn)
+			for _, l := range lost {
+				if l.conn != p.conn || l.claimed || l.rel == nil || !l.rel.first {
+					continue
+				}
+				if pass == 0 && !(l.rel.conn == p.req.conn && p.req.t >= l.rel.reqSent) {
+					continue
+				}
+				if pass == 1 && !(bc.recv[p.idx].T >= l.rel.reqSent) {
+					continue
+				}
+				l.claimed = true
+				done[ai] = true
+				ob := binOf(p.req.conn)
+				o := viewSent(p.req.conn, p.req.idx, &ob.sent[p.req.idx])
+				o.Note = "the request this RequestId belongs to"
+				frames := []FrameView{o}
+				if p.req.terminal >= 0 {
+					g := viewRecv(p.req.conn, p.req.terminal, &ob.recv[p.req.terminal])
+					g.Note = "its genuine reply"
+					frames = append(frames, g)
+				}
+				x := viewSent(l.conn, l.si.idx, &bc.sent[l.si.idx])
+				x.Note = "the request that never got a reply"
+				frames = append(frames, x)
+				rf, rt := relFrames(*l.rel)
+				frames = append(frames, rf...)
+				v := viewRecv(p.conn, p.idx, &bc.recv[p.idx])
+				v.Note = "the frame that went astray"
+				frames = append(frames, v)
+				how := fmt.Sprintf("the stray frame's request was sent on connection %d after that unlock", p.req.conn)
+				if pass == 1 {
+					how = fmt.Sprintf("the stray frame arrived after that unlock (its RequestId belongs to connection %d: the object went through more than one free list while the reply was pending)", p.req.conn)
+				}
+				add(sigRecycle, p.what+fmt.Sprintf("; LOCK request %x of connection %d (lock id %x) never got a reply although it was granted: an unlock-first UNLOCK on connection %d was answered SUCCED naming its LockId before, and %s — the reply of the lost request was built from its recycled command object", l.si.cmd.RequestId, l.conn, l.si.cmd.LockId, l.rel.conn, how), frames, rt)
+				break
+			}
+		}
+	}
+	for ai, p := range astray {
+		if done[ai] {
+			continue
+		}
 		bc := binOf(p.conn)
 		frames := []FrameView{}
-		v := viewRecv(p.conn, p.idx, &bc.recv[p.idx])
-		v.Note = "the frame that went astray"
-		sig := p.sig
-		what := p.what
-		paired := false
 		if p.req != nil {
 			ob := binOf(p.req.conn)
 			o := viewSent(p.req.conn, p.req.idx, &ob.sent[p.req.idx])
@@ -271,27 +316,11 @@ func monitor(rc *runCtx, res *ScenResult, srvLocked, srvWait int, reread func() 
 				g.Note = "its genuine reply"
 				frames = append(frames, g)
 			}
-			for _, l := range lost {
-				if l.conn == p.conn && !l.claimed && l.rel != nil && l.rel.first && l.rel.conn == p.req.conn && p.req.t >= l.rel.reqSent {
-					l.claimed = true
-					sig = sigRecycle
-					x := viewSent(l.conn, l.si.idx, &bc.sent[l.si.idx])
-					x.Note = "the request that never got a reply"
-					frames = append(frames, x)
-					rf, rt := relFrames(*l.rel)
-					frames = append(frames, rf...)
-					what += fmt.Sprintf("; LOCK request %x of connection %d (lock id %x) never got a reply although it was granted: an unlock-first UNLOCK on connection %d was answered SUCCED naming its LockId before, and the stray frame's request was sent on connection %d after that unlock — the reply of the lost request was built from its recycled command object", l.si.cmd.RequestId, l.conn, l.si.cmd.LockId, l.rel.conn, p.req.conn)
-					frames = append(frames, v)
-					add(sig, what, frames, rt)
-					paired = true
-					break
-				}
-			}
 		}
-		if !paired {
-			frames = append(frames, v)
-			add(sig, what, frames, nil)
-		}
+		v := viewRecv(p.conn, p.idx, &bc.recv[p.idx])
+		v.Note = "the frame that went astray"
+		frames = append(frames, v)
+		add(p.sig, p.what, frames, nil)
 	}
 	for _, l := range lost {
 		if l.claimed {
